@@ -77,6 +77,8 @@ example : ([1, 2] : List Nat).length = ([3, 4] : List Nat).length := by decide
 -- and the rank hypothesis is necessary for v2: rank 0 and `[0]` share the key "0"
 example : encode .v2 '.' [] = encode .v2 '.' [0] := by decide
 
+-- `hs` is kept from the specification's statement; the proof shows validity for any separator character
+set_option linter.unusedVariables false in
 /-- every chunk key is a valid store key beneath the array's node path -/
 theorem key_valid (p : List Char) (hp : validPath p = true) (e : Enc) (sep : Char) (hs : isSep sep = true)
     (idx : List Nat) :
@@ -100,6 +102,8 @@ example : nodePrefix "/a/b".toList = "a/b/".toList := by decide
 theorem dataKey_injective (p : List Char) (k1 k2 : List Char) (h : dataKey p k1 = dataKey p k2) : k1 = k2 :=
   dataKey_inj p h
 
+-- `hs` is kept from the specification's statement; the proof does not need it
+set_option linter.unusedVariables false in
 /-- a chunk key never equals a metadata key of the same node -/
 theorem not_metadata (p : List Char) (hp : validPath p = true) (e : Enc) (sep : Char) (hs : isSep sep = true)
     (idx : List Nat) (name : List Char) (hn : name ∈ metaNames) :
